@@ -31,6 +31,13 @@ def rows_canon(d, rng):
     sub = ins if not q else ins[::2]
     if "TryFrom" in d["traits"]:
         rows.append({"d": d["id"], "ep": "canon_tf", "ins": sub})
+        rows.append({"d": d["id"], "ep": "canon_via_try_from", "ins": sub})
+    if "From" in d["traits"]:
+        rows.append({"d": d["id"], "ep": "canon_via_from", "ins": sub})
+    if d["fam"] == "string" and "FromStr" in d["traits"]:
+        rows.append({"d": d["id"], "ep": "canon_via_from_str", "ins": ins})
+    if "Serialize" in d["traits"] and "Deserialize" in d["traits"]:
+        rows.append({"d": d["id"], "ep": "canon_via_deser", "ins": sub})
     if "Display" in d["traits"] and "FromStr" in d["traits"]:
         rows.append({"d": d["id"], "ep": "canon_disp", "ins": sub})
     if "Serialize" in d["traits"] and "Deserialize" in d["traits"]:
@@ -278,13 +285,19 @@ def rows_c12(d, rng):
             sorts.append([rng.choice(ins) for _ in range(k)])
         rows.append({"d": d["id"], "ep": "sort", "ins": sorts})
     rows.append({"d": d["id"], "ep": "canon", "ins": ins[::2]})
+    if d.get("const_inputs"):
+        nan = [0x7fc00000, 0xffc00001, 0x7f800000] if d["ty"] == "f32" else [0x7ff8000000000000, 0xfff8000000000001, 0x7ff0000000000000]
+        d["const_inputs"] = list(d["const_inputs"])[:5] + nan      # NaN payloads and +inf also through rustc's const evaluator
+        ep = "try_new_const" if d["vmode"] != "none" else "new_const"
+        rows = [r for r in rows if r["ep"] != ep]
+        rows.append({"d": d["id"], "ep": ep, "ins": [{"i": i, "v": VL.enc_value(d, v)} for i, v in enumerate(d["const_inputs"])]})
     return rows
 
 
 def check_C12():
     q = tier() == "quick"
     sizes = {"float": 90} if q else {"float": 600}
-    return run_direct_property("C12", None, sizes, 0, True, rows_fn=rows_c12, fams=("float",), mc_suffix="c12", sweeps=True,
+    return run_direct_property("C12", None, sizes, 0, True, rows_fn=rows_c12, fams=("float",), mc_suffix="c12", sweeps=True, const_twins=True,
                                extra_must=lambda ad: any(t == "Ord" for t in ad["traits"]) and len(ad["val"]) <= 2,
                                evidence_extra={"slice": "f32/f64 declarations with finite (+ optional bounds, every order) deriving PartialEq, Eq, PartialOrd, Ord; "
                                                "every entry point (constructor, TryFrom, FromStr, Deserialize in RON/MessagePack carrying NaN/inf, Default with a NaN default) "
